@@ -70,7 +70,8 @@ def run(tier):
     if quick:
         jobs = [(s0 + 1, dict(nd=2, np=2, copies=2), "adds", (3, 1), 1),
                 (s0 + 2, dict(nd=3, np=1, copies=2), "mixed", (8, 128), 2),
-                (s0 + 3, dict(nd=2, np=1, copies=2), "tiny", (3, 1), 1)]
+                (s0 + 3, dict(nd=2, np=1, copies=2), "tiny", (3, 1), 1),
+                (s0 + 4, dict(nd=2, np=2, copies=2), "partial", (3, 8), 1)]
     else:
         jobs = []
         for i, sh in enumerate([dict(nd=2, np=2, copies=2), dict(nd=3, np=1, copies=2), dict(nd=3, np=3, copies=1), dict(nd=4, np=2, copies=2),
@@ -78,6 +79,7 @@ def run(tier):
             for pending in ("adds", "mixed"):
                 jobs.append((s0 + 10 + 2 * i + (pending == "mixed"), sh, pending, (1, 3, 8, 128), 1))
             jobs.append((s0 + 40 + i, sh, "tiny", (1, 8), 1))
+            jobs.append((s0 + 60 + i, sh, "partial", (3, 128), 1))
     with multiprocessing.Pool(min(8, len(jobs))) as pool:
         res = pool.map(_work, jobs, chunksize=1)
     scs = []
